@@ -58,6 +58,7 @@ def run(res, proof):
     res.exhaustive = True
     ops = []
     clear_singletons(DomainS)
+    SUB = type('MyComplex', (ComplexS,), {})
     doms = {n: DomainS(n, 5) for n in ('a', 'b', 'c')}
     doms.update({n + '*': ~d for n, d in list(doms.items())})
     for s in structs:
@@ -80,6 +81,9 @@ def run(res, proof):
             for mode in (False, True):
                 cu.fresh_results(res, 'make_loop_index', lambda: cux.make_loop_index(cux.make_pair_table(s), components=mode) if (connected or mode) else None,
                                  {'op': ['loop', s, '1' if mode else '0']})
+        if len(s) <= 12:
+            cu.same_for_forms(res, 'make_loop_index', [('lists', lambda: cux.make_loop_index(cux.make_pair_table(s), components=True)),
+                                                       ('tuples', lambda: cux.make_loop_index(cu.tup(cux.make_pair_table(s)), components=True))], {'op': ['loop', s, '1']})
         out1 = cu.impl_op(cux, ('loop', s, '1'))
         if not out1.startswith('ok ' + cu.show_ll(li) + ' / '):
             res.violation('make_loop_index:components-mode', {'op': ['loop', s, '1']}, out1, 'ok ' + cu.show_ll(li) + ' / …')
@@ -92,7 +96,9 @@ def run(res, proof):
         names = gen.complementary_label(s, rng, ['a', 'b', 'c']) if compl else gen.label(s, rng, ['a', 'b', 'a*', 'c*'])
         seq = [doms[x] if x != '+' else '+' for x in names]
         try:
-            c = ComplexS(seq, list(s), name='X')
+            K = ComplexS if rng.random() < 0.7 else SUB          # sometimes a user subclass
+            clear_singletons(K)
+            c = K(seq, list(s), name='X')
             got_conn = c.is_connected
             if got_conn != connected:
                 res.violation('is_connected', {'op': ['ComplexS.is_connected', ' '.join(names), s]}, repr(got_conn), repr(connected))
